@@ -310,9 +310,17 @@ impl Sweep {
             )
         });
         let prose_all: Vec<usize> = (0..fes.len()).collect();
+        // thorough: one front-end per class and per comment-grammar family (every front-end still
+        // sees every whole seed in S/seeds-all-frontends)
+        let prose_wide: Vec<usize> = fe_idx(&fes, |f| {
+            matches!(
+                f.name.as_str(),
+                "plain" | "markdown" | "gitcommit" | "html" | "typst" | "lhaskell" | "comment:rust" | "comment:javascript" | "comment:python" | "comment:go" | "comment:lua" | "comment:ruby"
+            ) || f.name.contains("isolate")
+        });
         fams.push(Family {
             name: "G3/seed-deviations".into(),
-            fes: t.pick(prose_q.clone(), prose_all.clone()),
+            fes: t.pick(prose_q.clone(), prose_wide.clone()),
             generator: Gen::List(g3q.clone()),
             embed: true,
         });
@@ -355,7 +363,7 @@ impl Sweep {
                     vocab: vocab.clone(),
                     vocab2: vocab.clone(),
                     seps: strs(&[" ", "-", ", ", ". ", "\n", "'"]),
-                    ends: strs(&["", "."]),
+                    ends: strs(&[""]),
                 },
                 embed: false,
             });
@@ -394,7 +402,7 @@ impl Sweep {
                     vocab: vocab.clone(),
                     vocab2: vocab.clone(),
                     seps: strs(&[" "]),
-                    ends: strs(&[" ", ",", "?", "\n", "\n\n"]),
+                    ends: strs(&[".", "?", "\n\n"]),
                 },
                 embed: false,
             });
